@@ -80,6 +80,31 @@ func (p *pp) startPrint() {
 	}
 }
 
+// printVerbArg prints the operand of one Printf directive. A %w
+// directive that does not capture its operand (a second %w, an operand
+// that is not an error or that never reaches method dispatch) disables
+// error wrapping for the rest of the call, like the rejection in
+// handleMethods does, whichever route the operand takes.
+func (p *pp) printVerbArg(arg interface{}, verb rune) {
+	if verb != 'w' {
+		p.printArg(arg, verb)
+		return
+	}
+	armed := p.wrapErrs && p.wrappedErr == nil
+	p.printArg(arg, verb)
+	if !armed || p.wrappedErr == nil {
+		p.rejectWrap(verb)
+	}
+}
+
+// rejectWrap records that a %w directive was not used correctly.
+func (p *pp) rejectWrap(verb rune) {
+	if verb == 'w' {
+		p.wrappedErr = nil
+		p.wrapErrs = false
+	}
+}
+
 type restorer struct {
 	p            *pp
 	prevMode     b.OutputMode
